@@ -28,6 +28,7 @@ def run(ctx):
     runs = [(5, 3, 1), (6, 2, 3)] if q else [(5, 3, 1), (6, 3, 2), (7, 3, 3)]
     tabs = [toastlat.run_tlc(ctx, R, D, K) for (R, D, K) in runs]
     worst = {"small": 0.0, "grid256": 0.0, "deeper-tile": 0.0, "lat-excess": 0.0, "outside": 0.0}
+    cons = toastlat.library_consumers()
     for csname, cs in toastlat.coordsystems():
         psi = toastlat.psi_for(tabs[0], csname)
         # ---- npix = 2, 4, 8 against TLC's grids
@@ -72,6 +73,9 @@ def run(ctx):
             tiles.append((n, ctx.rng.randrange(2 ** n), ctx.rng.randrange(2 ** n)))
         for (n, x, y) in tiles:
             tile = toast.create_single_tile(Pos(n, x, y), coordsys=cs)
+            # the tile is first shown to the library's own footprint filters and area function, as in a filtered sampling
+            # run: the grid asked for afterwards is still the grid of this tile
+            toastlat.hand_to_consumers(tile, cons)
             lons, lats = toast.toast_tile_get_coords(tile)
             ctx.count()
             ctx.distinct((csname, (n, x, y), 256))
